@@ -424,6 +424,25 @@ def header_constants(ctx, report, RULE='C04.R4', scope=('cryptoparser.tls.', 'cr
                         if d.const == 0 and len(d.terms) == 2 and minus == ['len(parsable)'] and len(plus) == 1 and \
                                 plus[0].split('.')[-1] in HEADER_NAMES and plus[0].split('.')[0] in ('cls', 'self'):
                             names.add((plus[0].split('.')[-1], g))
+        # the same pre-check in a helper function of the module that is handed the class (``_get_parser(cls, parsable)`` with
+        # ``len(parsable) < record_class.HEADER_SIZE``)
+        for b in c.module.bindings.values():
+            if b[0] != 'func':
+                continue
+            g = b[1]
+            gparams = [a.arg for a in g.node.args.args]
+            defs = single_defs(g.node)
+            for n in ast.walk(g.node):
+                if isinstance(n, ast.If) and any(isinstance(x, ast.Raise) for x in n.body):
+                    gd = guard_deficit(n.test, {}, defs)
+                    if gd is None:
+                        continue
+                    d = gd[0]
+                    plus = [k for k, v in d.terms.items() if v == 1]
+                    minus = [k for k, v in d.terms.items() if v == -1]
+                    if d.const == 0 and len(d.terms) == 2 and len(minus) == 1 and minus[0].startswith('len(') and len(plus) == 1 and \
+                            plus[0].split('.')[-1] in HEADER_NAMES and plus[0].split('.')[0] in gparams:
+                        names.add((plus[0].split('.')[-1], g))
         for name, g in names:
             # only when that pre-check is on the path of this class's _parse
             res = ctx.canon.layout(c, 'parse').result
